@@ -4,6 +4,7 @@ package gen
 import (
 	"fmt"
 	"sort"
+	"strconv"
 	"strings"
 
 	"github.com/BondMachineHQ/BondMachine/pkg/bondmachine"
@@ -21,6 +22,10 @@ type ProcSpec struct {
 
 // BMSpec describes a whole machine as data.
 type BMSpec struct {
+	// SOs: shared objects (the textual form Add_shared_objects accepts); SOLinks: {processor, shared object}
+	// attachments in order. The processors' ProcSpec.Shared must name what their opcodes talk to.
+	SOs     []string `json:",omitempty"`
+	SOLinks [][2]int `json:",omitempty"`
 	Rsize   int
 	Procs   []ProcSpec
 	Inputs  int
@@ -141,6 +146,15 @@ func Build(s BMSpec) (*bondmachine.Bondmachine, error) {
 	for _, b := range s.Bonds {
 		bm.Add_bond([]string{b[0], b[1]})
 	}
+	if len(s.SOs) > 0 {
+		bm.Add_shared_objects(s.SOs)
+		if len(bm.Shared_objects) != len(s.SOs) {
+			return nil, fmt.Errorf("shared objects %q: %d accepted", s.SOs, len(bm.Shared_objects))
+		}
+		for _, l := range s.SOLinks {
+			bm.Connect_processor_shared_object([]string{strconv.Itoa(l[0]), strconv.Itoa(l[1])})
+		}
+	}
 	return bm, nil
 }
 
@@ -182,6 +196,8 @@ type HSOptions struct {
 	EqualLoops bool     // pad every loop to the same length (consumers of a fan-out advance at equal speed)
 	NoFanout   bool
 	RAM        bool // sometimes give a processor a data memory (L 1..3): more ports on the processor, none used by the program
+	UnusedIO   bool // sometimes give a processor IO opcodes its program never executes (i2r next to i2rw, r2o next to r2owa): the shared parts of their hardware templates are emitted by whichever opcode comes first
+	LFSR       bool // sometimes attach an lfsr8 shared object to some processors, which read it (lfsr82r) among their ALU instructions
 	Thru       bool // sometimes bond an external input straight to a fresh external output as well (pass-through, fan-out of the input)
 }
 
@@ -201,6 +217,8 @@ func genALU(t *rapid.T, nreg int, rsize int, extra []string) string {
 		return op + " " + r("ra")
 	case "add", "cpy", "mult", "addp", "multp", "divp", "mulc", "and", "or", "xor", "nand", "nor", "xnor", "not", "adc", "sbc", "rsc":
 		return op + " " + r("ra") + " " + r("rb")
+	case "lfsr82r":
+		return "lfsr82r " + r("ra") + " lfsr80"
 	case "rset":
 		max := 255
 		if rsize < 8 {
@@ -237,6 +255,11 @@ func HandshakeMachine(t *rapid.T, o HSOptions) BMSpec {
 		}
 	}
 	np := rapid.IntRange(1, o.MaxProcs).Draw(t, "nprocs")
+	lfsr := ""
+	if o.LFSR && rapid.IntRange(0, 2).Draw(t, "lfsr") == 0 {
+		lfsr = fmt.Sprintf("lfsr8:%d", rapid.IntRange(1, 255).Draw(t, "lfsrseed"))
+		s.SOs = []string{lfsr}
+	}
 	type src struct {
 		name  string
 		sinks int
@@ -250,6 +273,12 @@ func HandshakeMachine(t *rapid.T, o HSOptions) BMSpec {
 		minIn := 0
 		ps.N = rapid.IntRange(minIn, o.MaxIn).Draw(t, "N")
 		ps.M = rapid.IntRange(1, o.MaxOut).Draw(t, "M")
+		extra := o.ExtraALU
+		if lfsr != "" && (p == 0 || rapid.Bool().Draw(t, "readslfsr")) {
+			ps.Shared = lfsr
+			s.SOLinks = append(s.SOLinks, [2]int{p, 0})
+			extra = append(append([]string(nil), extra...), "lfsr82r", "lfsr82r")
+		}
 		ps.L = 0
 		if o.RAM && rapid.IntRange(0, 2).Draw(t, "hasram") == 0 {
 			ps.L = rapid.IntRange(1, 3).Draw(t, "L")
@@ -289,19 +318,19 @@ func HandshakeMachine(t *rapid.T, o HSOptions) BMSpec {
 		// program
 		var prog []string
 		for i, n := 0, rapid.IntRange(0, o.MaxPad).Draw(t, "prologue"); i < n; i++ {
-			prog = append(prog, genALU(t, nreg, s.Rsize, o.ExtraALU))
+			prog = append(prog, genALU(t, nreg, s.Rsize, extra))
 		}
 		loop := len(prog)
 		for k := 0; k < ps.N; k++ {
 			prog = append(prog, fmt.Sprintf("i2rw r%d i%d", rapid.IntRange(0, nreg-1).Draw(t, "rin"), k))
 			for i, n := 0, rapid.IntRange(o.MinPad, o.MaxPad).Draw(t, "pad"); i < n; i++ {
-				prog = append(prog, genALU(t, nreg, s.Rsize, o.ExtraALU))
+				prog = append(prog, genALU(t, nreg, s.Rsize, extra))
 			}
 		}
 		for k := 0; k < ps.M; k++ {
 			prog = append(prog, fmt.Sprintf("r2owa r%d o%d", rapid.IntRange(0, nreg-1).Draw(t, "rout"), k))
 			for i, n := 0, rapid.IntRange(o.MinPad, o.MaxPad).Draw(t, "pad"); i < n; i++ {
-				prog = append(prog, genALU(t, nreg, s.Rsize, o.ExtraALU))
+				prog = append(prog, genALU(t, nreg, s.Rsize, extra))
 			}
 		}
 		prog = append(prog, fmt.Sprintf("j %d", loop))
@@ -349,7 +378,7 @@ func HandshakeMachine(t *rapid.T, o HSOptions) BMSpec {
 	if o.Replicate {
 		for i := 1; i < len(s.Procs); i++ {
 			for j := 0; j < i; j++ {
-				if s.Procs[i].R == s.Procs[j].R && s.Procs[i].N == s.Procs[j].N && s.Procs[i].M == s.Procs[j].M && s.Procs[i].L == s.Procs[j].L &&
+				if s.Procs[i].R == s.Procs[j].R && s.Procs[i].N == s.Procs[j].N && s.Procs[i].M == s.Procs[j].M && s.Procs[i].L == s.Procs[j].L && s.Procs[i].Shared == s.Procs[j].Shared &&
 					rapid.IntRange(0, 1).Draw(t, "replica") == 1 {
 					s.Procs[i].Prog = append([]string(nil), s.Procs[j].Prog...)
 					s.ShareDomains = true
@@ -364,6 +393,15 @@ func HandshakeMachine(t *rapid.T, o HSOptions) BMSpec {
 	for i := range s.Procs {
 		ps := &s.Procs[i]
 		ps.Ops = UsedOps(ps.Prog)
+		if o.UnusedIO && rapid.IntRange(0, 2).Draw(t, "unusedio") == 0 {
+			if ps.N > 0 && rapid.Bool().Draw(t, "unused-i2r") {
+				ps.Ops = append(ps.Ops, "i2r")
+			}
+			if ps.M > 0 && rapid.Bool().Draw(t, "unused-r2o") {
+				ps.Ops = append(ps.Ops, "r2o")
+			}
+			sort.Strings(ps.Ops)
+		}
 		ps.O = NeededBits(len(ps.Prog))
 		if ps.N == 0 {
 			// Inputs_bits etc. handle zero; nothing to do
